@@ -289,8 +289,19 @@ class DefaultRealizationFilter(RealizationFilter):
         failed_realizations = np.isnan(constraints[..., 0])
         constraints = np.nan_to_num(constraints[..., self._filter_options.sort])
         assert self._enopt_config.nonlinear_constraints is not None
+        lower_bound = self._enopt_config.nonlinear_constraints.lower_bounds[
+            self._filter_options.sort
+        ]
+        upper_bound = self._enopt_config.nonlinear_constraints.upper_bounds[
+            self._filter_options.sort
+        ]
+        # The worst realizations are those that violate the bounds of the
+        # constraint most, or come closest to violating them: largest values
+        # for an upper bound, smallest for a lower bound, farthest from the
+        # target for an equality constraint.
+        distance = np.maximum(lower_bound - constraints, constraints - upper_bound)
         return _get_cvar_weights_from_percentile(
-            -constraints, failed_realizations, self._filter_options.percentile
+            -distance, failed_realizations, self._filter_options.percentile
         )
 
 
